@@ -9,8 +9,10 @@ package main
 
 import (
 	"bytes"
+	"compress/gzip"
 	"context"
 	"fmt"
+	"io"
 	"os"
 	"os/exec"
 	"path/filepath"
@@ -462,7 +464,12 @@ func runCli(c *mon.Case) {
 		in.WriteString(fmtio.ByName("clustal").Write(al))
 	}
 	inFile, outFile := filepath.Join(dir, "in.txt"), filepath.Join(dir, "out.txt")
-	logFile, wFile := filepath.Join(dir, "log.txt"), filepath.Join(dir, "weights.txt")
+	wName := "weights.txt"
+	if k.Weights && c.R.Chance(0.4) {
+		wName = "weights.gz" // compressed by its suffix; flushed when the command closes it
+		c.Count("cli:compress:weight-out-gz")
+	}
+	logFile, wFile := filepath.Join(dir, "log.txt"), filepath.Join(dir, wName)
 	if err := os.WriteFile(inFile, []byte(in.String()), 0644); err != nil {
 		panic("harness: " + err.Error())
 	}
@@ -535,6 +542,15 @@ func runCli(c *mon.Case) {
 	}
 	logB, logErr := os.ReadFile(logFile)
 	wB, wErr := os.ReadFile(wFile)
+	if wErr == nil && wName == "weights.gz" {
+		if zr, e := gzip.NewReader(bytes.NewReader(wB)); e != nil {
+			wErr = fmt.Errorf("%d bytes that are no gzip stream: %v", len(wB), e)
+		} else if plain, e := io.ReadAll(zr); e != nil {
+			wErr = fmt.Errorf("%d bytes, truncated gzip stream: %v", len(wB), e)
+		} else {
+			wB = plain
+		}
+	}
 	fail := func(sig, format string, x ...interface{}) {
 		c.Failf("cli:"+k.Cmd+":"+sig, "goalign %s\ninput file:\n%sexit %d\nstderr: %s\noutput:\n%s\nlog file: %q\nweight file: %q\n%s", strings.Join(args, " "), in.String(), exit, cliFirstLines(stderr, 3), text, logB, wB, fmt.Sprintf(format, x...))
 	}
@@ -565,7 +581,7 @@ func runCli(c *mon.Case) {
 				fail("stray-file", "file %q written although -l was not given", e.Name())
 				return
 			}
-		case "weights.txt":
+		case "weights.txt", "weights.gz":
 			if !k.Weights {
 				fail("stray-file", "file %q written although --weight-out was not given", e.Name())
 				return
